@@ -13,6 +13,13 @@ CHECKS = {
         "design_ref": "DESIGN.md section 4, C05",
         "note": "trusted: z3, symx engine, reference traversal oracle; predicates are functions of the position; trees <= 5 (quick) / 7 (thorough) nodes, depth <= 3, tuple width <= 3",
     },
+    "C12": {
+        "engine": "symx (engine P)",
+        "technique": "bounded symbolic execution of the real exec-generated accessors with the five skip flags and sort_keys as lazy symbolic booleans (z3-decided forking) over generated class hierarchies",
+        "text": "For every generated class hierarchy within the bound (1-3 levels, 10 field kinds, overrides, plain and postponed annotations), every queried class, every instance variant and EVERY combination of the skip flags / sort_keys that the generated code can distinguish, all eight accessors equal the oracle computed from the class recipe; first-use order varied on freshly created classes. Decision tree exhausted.",
+        "design_ref": "DESIGN.md section 4, C12",
+        "note": "trusted: z3, symx, the recipe oracle, Python's dataclass field ordering rule (re-implemented in models/classgen.flatten); classes beyond the bound are outside the claim",
+    },
 }
 NOT_APPLICABLE = {
     "C11": "input is a class definition consumed by typing/abc introspection (get_origin/get_args/get_type_hints/issubclass): no engine can keep an annotation symbolic, every path would be one concrete class definition, i.e. enumeration of concrete runs rather than a solver verdict (DESIGN.md section 5)",
